@@ -543,11 +543,23 @@ func bodyOK(sr seenReq, want []*dto.MetricFamily) bool {
 		}
 		return true
 	default:
-		// no decoder available for this format: compare with the library's own encoding of the gathered families
+		// no decoder available for this format: compare with the library's own finalized encoding of the gathered families
 		var ref bytes.Buffer
 		enc := expfmt.NewEncoder(&ref, expfmt.Format(ct))
 		for _, w := range want {
 			if enc.Encode(w) != nil {
+				return false
+			}
+		}
+		if c, ok := enc.(expfmt.Closer); ok && c.Close() != nil {
+			return false
+		}
+		if expfmt.Format(ct).FormatType() == expfmt.TypeOpenMetrics {
+			// a complete OpenMetrics exposition: terminated by exactly one "# EOF" line, which is the last line
+			if !bytes.HasSuffix(sr.body, []byte("# EOF\n")) || bytes.Count(sr.body, []byte("# EOF")) != 1 {
+				return false
+			}
+			if len(sr.body) > 6 && sr.body[len(sr.body)-7] != '\n' {
 				return false
 			}
 		}
